@@ -211,4 +211,41 @@ theorem alter_flag_append {α : Type} (inv : α → Bool) (cs ds : List α) (h :
 example : alterFlag (fun (named : Bool) => named) [false, true] = false ∧
     alterFlag (fun (named : Bool) => named) [true, true] = true := by decide
 
+/-! ### which changes of an ALTER TABLE are invertible (the planners' table, `Atlas.Reverse.alterInv`) -/
+
+/-- **alter_reversible_iff_table**: an ALTER TABLE statement is reported reversible exactly when it adds no
+unnamed CHECK and - PostgreSQL - drops no generation expression. -/
+theorem alter_reversible_iff_table (pg : Bool) (cs : List AlterCh) :
+    alterFlag (alterInv pg) cs = true ↔
+      AlterCh.addCheck false ∉ cs ∧ (pg = true → AlterCh.modifyColumn true ∉ cs) := by
+  rw [alter_flag_iff]
+  constructor
+  · intro h
+    refine ⟨fun hm => ?_, fun hp hm => ?_⟩
+    · have := h _ hm; simp [alterInv] at this
+    · have := h _ hm; simp [alterInv, hp] at this
+  · intro ⟨h1, h2⟩ c hc
+    cases c with
+    | addCheck named => cases named with
+      | true => rfl
+      | false => exact absurd hc h1
+    | modifyColumn g => cases g with
+      | false => simp [alterInv]
+      | true => cases pg with
+        | false => simp [alterInv]
+        | true => exact absurd hc (h2 rfl)
+    | other => rfl
+
+/-- **unnamed_check_never_reversible**: whatever else the statement holds, in whatever order, for every dialect:
+an ALTER TABLE that adds a CHECK without a name is never reported reversible. -/
+theorem unnamed_check_never_reversible (pg : Bool) (cs : List AlterCh) (h : AlterCh.addCheck false ∈ cs) :
+    alterFlag (alterInv pg) cs = false := by
+  cases hf : alterFlag (alterInv pg) cs with
+  | false => rfl
+  | true => exact absurd h ((alter_reversible_iff_table pg cs).mp hf).1
+
+example : alterFlag (alterInv true) [.other, .addCheck true, .modifyColumn false] = true ∧
+    alterFlag (alterInv true) [.other, .addCheck false, .addCheck true] = false ∧
+    alterFlag (alterInv true) [.modifyColumn true] = false ∧ alterFlag (alterInv false) [.modifyColumn true] = true := by decide
+
 end Props.C17
